@@ -54,6 +54,7 @@ LOOPS[K + 'get_phosphosequence'] = {0: dict(index='k', types={'pseq': 'str'}, in
 
 CONTRACT[K + 'kappa_at_maxPhos'] = dict(
     self=mk_seq_phos(), requires=['dmax_inv(self)'], raises=[], modifies=['dmax', 'seqDeltaMax'], returns='real',
+    ghost_locals={'newseq': 'list[char]'},       # at call sites the substituted sequence is a ghost witness
     field_types={'dmax': 'real', 'seqDeltaMax': 'opaque'},
     ensures=['implies(length(self.phosphosites) == 0, result == kappa_seq(self.seq, self.len))',
              'implies(length(self.phosphosites) > 0, And(length(local("newseq", "")) == self.len, '
@@ -68,5 +69,19 @@ CONTRACT[K + 'calculateNumberDifferentPhosphoStates'] = dict(self=mk_seq_phos(ns
                                                              ensures=['result == 2 ** length(self.phosphosites)'])
 CONTRACT[K + 'calculateKappaDistOfPhosphoStates'] = dict(
     self=mk_seq_phos(nsites=1, dmax='unset'), cases=[dict(self=mk_seq_phos(nsites=k, dmax='unset')) for k in (0, 1, 2, 3)],
-    raises=[], modifies=[],
+    raises=[], modifies=[], returns=lambda it, env: _dist_shape(it, env['self'].fields['phosphosites']),
     ensures=['dist_ok(result, self.seq, self.len, self.phosphosites)'])
+
+
+def _dist_shape(it, sites):
+    """call sites: a list of 2^k fresh entries (six reals and the status tuple) constrained by the postcondition"""
+    import itertools
+    return [tuple(it.fresh('dist%d.%d' % (n, j), 'real') for j in range(6)) + (bits,)
+            for n, bits in enumerate(itertools.product('01', repeat=len(sites)))]
+
+
+# all S/T/Y positions (1-based, increasing)
+CONTRACT[K + 'get_STY_residues'] = dict(
+    self=mk_seq_phos(), raises=[], modifies=[], returns='list[int]',
+    ensures=['sty_list_ok(result, self.seq, self.len)'])
+LOOPS[K + 'get_STY_residues'] = {0: dict(index='k', types={'sites': 'list[int]'}, invariant=['idx == k + 1', 'sty_list_ok(sites, self.seq, k)'])}
